@@ -381,6 +381,7 @@ def _work_pairs(task):
             raise RuntimeError("two fresh instances differ: " + sess.compare())
     except Exception as ex:
         return _no_session(out, text, True, ex)
+    tkey = R.digest(text)
     for ai in a_idx:
         name, args, kwargs = qs[ai]
         st, val, _ = R.call_query(R.parse_text(text), name, args, kwargs)
@@ -398,7 +399,7 @@ def _work_pairs(task):
                 except Exception as ex:
                     d = f"history raised {type(ex).__name__}: {ex}"
                 out["evals"] += 1
-                out["hashes"].append(R.digest(h))
+                out["hashes"].append(R.digest([tkey, h]))
                 if d:
                     out["nfail"] += 1
                     if len(out["failures"]) < 2:
@@ -454,7 +455,7 @@ def _work_random(task):
                 if len(out["failures"]) < 2:
                     out["failures"].append(_failure_from(sess, h[: k + 1], d))
                 break
-        out["hashes"].append(R.digest([cc, h]))
+        out["hashes"].append(R.digest([R.digest(text), cc, h]))
     return out
 
 
@@ -588,7 +589,7 @@ def run(tier="quick", seed=0):
         evaluations=ev, distinct_nontrivial=dn,
         rule="one evaluation = one history (A, mutation of A's result, [B]) run on the shared instance followed by the full "
              "snapshot comparison (all tables and declaration queries; chains / expansion / printing for the first and last "
-             "chain mother) with a fresh instance; distinct_nontrivial = distinct histories",
+             "chain mother) with a fresh instance; distinct_nontrivial = distinct (file, history) inputs",
         exhaustive=True, samples=_sample_pairs(texts[0]),
         failures=fl, failing_evaluations=nf, errors=er, seconds=round(time.time() - t1, 1)))
 
@@ -609,7 +610,7 @@ def run(tier="quick", seed=0):
               "length 2..8, steps = any public query call with (60 %) a random in-place mutation of its result, or (6 %) parse() again",
         evaluations=ev, distinct_nontrivial=dn,
         rule="one evaluation = one step of a history followed by the full snapshot comparison with a fresh instance; "
-             "distinct_nontrivial = distinct (switch, history) inputs",
+             "distinct_nontrivial = distinct (file, switch, history) inputs",
         exhaustive=False, samples=[], failures=fl, failing_evaluations=nf, errors=er, seconds=round(time.time() - t1, 1)))
 
     # ---- reparse
